@@ -2261,7 +2261,7 @@ class Power(Array):
             return
         func = self.func
         newpower = multiply(self.power, n)
-        if iszero(self.power % astype(2, self.power.dtype)) and not iszero(newpower % astype(2, newpower.dtype)):
+        if _certainly_even(self.power) and not _certainly_even(newpower):
             func = abs(func)
         return Power(func, newpower)
 
@@ -5999,6 +5999,13 @@ def constant(v):
 
 def iszero(arg):
     return isinstance(arg.simplified, Zeros)
+
+
+def _certainly_even(arg):
+    unaligned, where = unalign(arg.simplified)
+    if not unaligned.ndim and unaligned.isconstant:
+        return eval_once(unaligned) % 2 == 0
+    return iszero(arg % astype(2, arg.dtype))
 
 
 def isunit(arg):
